@@ -169,6 +169,48 @@ def pwl_events(tf, ctx, rng, n):
   return evs
 
 
+def pwl_fixed_events(tf, ctx, rng, n):
+  """Feasible multi-unit PWL kernels (monotone, convex/concave, inside the bounds; every unit spanning more than half
+  of the output range, so that the units together exceed it) through project_all_constraints for several iteration
+  counts: the statement says feasible kernels come back unchanged."""
+  evs = []
+  for j in range(n):
+    nk = int(rng.integers(3, 6))
+    mono = int(rng.choice([-1, 1]))
+    conv = int(rng.choice([-1, 0, 1]))
+    hi = int(rng.choice([1, 2]))
+    minT, maxT = [("B", "B"), ("N", "B"), ("B", "N")][j % 3]
+    units = int(rng.choice([2, 3, 4]))
+    cols = []
+    for _ in range(units):
+      steps = np.sort(rng.integers(1, 9, size=nk - 1)).astype(np.float64)      # increasing slopes: convex for mono = 1
+      if conv * mono < 0:
+        steps = steps[::-1]
+      if conv == 0:
+        rng.shuffle(steps)
+      total = float(rng.integers(36, 65)) / 64.0 * hi                         # 0.56 .. 1.0 of the range, on the 1/64 grid
+      h = np.floor(steps / steps.sum() * total * 64.0) / 64.0
+      if conv != 0:                                                           # flooring must not disturb the slope order
+        h = np.sort(h) if conv * mono > 0 else np.sort(h)[::-1]
+      first = 0.0 if mono == 1 else float(hi)
+      if mono == 1 and minT == "N":
+        first = float(hi) - h.sum()
+      if mono == -1 and maxT == "N":
+        first = h.sum()
+      cols.append(np.concatenate([[first], mono * h]))
+    K = np.stack(cols, axis=1).astype(np.float32)
+    for iters in (1, 3, 8):
+      c = {"mono": mono, "conv": conv, "minT": minT, "maxT": maxT, "omin": [0, 1], "omax": [hi, 1],
+           "len": [[1, 1]] * (nk - 1), "iters": iters}
+      out = c04.run_constraint(tf, c, K)
+      for u in range(units):
+        evs.append({"ev": "PwlFixed", "cfg": c, "den": PDEN, "w0": ints(K[:, u], PDEN), "w": ints(out[:, u], PDEN), "tolu": 8,
+                    "site": {"layer": "pwl", "ev": "PwlFixed"},
+                    "call": {"path": "PwlFixed", "cfg": c, "K": K.tolist(), "unit": u}})
+      ctx.count(units, nontrivial_key=("pwlfixed", j, iters))
+  return evs
+
+
 def run(ctx):
   tf, tfl = common.import_tf()
   ctx.rule = ("Dyk: every configuration of the Dykstra-only TLC spaces x every integer kernel through "
@@ -200,7 +242,7 @@ def run(ctx):
       cevents.append(latcfg.raised_event(c, "Conv", ex))
   if cevents:
     ctx.sample({k: cevents[0].get(k) for k in ("ev", "cfg", "w0", "ws", "rp", "strictw", "nearest", "den")})
-  pevents = pwl_events(tf, ctx, rng, 8 if ctx.quick else 100)
+  pevents = pwl_events(tf, ctx, rng, 8 if ctx.quick else 100) + pwl_fixed_events(tf, ctx, rng, 12 if ctx.quick else 150)
   log("  %d Dyk events, %d Conv events, %d PwlConv events" % (len(events), len(cevents), len(pevents)))
   ctx.validate("TraceDykstra", events)
   ctx.validate("TraceDykstra", cevents + pevents, shards=common.NCPU)
@@ -218,6 +260,13 @@ def replay(ctx, path):
     K = np.array(call["w0"], dtype=np.float32).reshape(-1, 1)
     if call["path"] == "Conv":
       events += conv_event(tf, tfl, c, K)
+    elif call["path"] == "PwlFixed":
+      K = np.array(call["K"], dtype=np.float32)
+      out = c04.run_constraint(tf, c, K)
+      e2 = dict(ev)
+      e2["w"] = ints(out[:, call["unit"]], PDEN)
+      events.append(e2)
+      continue
     elif call["path"] == "PwlConv":
       out = c04.run_constraint(tf, c, K)
       e2 = dict(ev)
